@@ -26,7 +26,7 @@ def to_smt2(ob):
     return txt
 
 
-def has_quant(e):
+def has_quant(e, lambdas_count=True):
     seen = set()
     stack = [e]
     while stack:
@@ -35,7 +35,10 @@ def has_quant(e):
             continue
         seen.add(x.get_id())
         if z3.is_quantifier(x):
-            return True
+            if lambdas_count or not x.is_lambda():
+                return True
+            stack.append(x.body())
+            continue
         stack.extend(x.children())
     return False
 
@@ -233,6 +236,28 @@ async def _solve_async(pairs, timeout_all, jobs, tmpdir, variants=None):
     await asyncio.gather(*[one(i, ob, txt) for i, (ob, txt) in enumerate(pairs)])
 
 
+async def _solve_variants(pairs, timeout, jobs, tmpdir):
+    import asyncio
+    sem = asyncio.Semaphore(jobs)
+
+    async def one(n, ob, vs):
+        async with sem:
+            path = os.path.join(tmpdir, f"v{n}.smt2")
+            for label, vt in vs:
+                with open(path, "w") as f:
+                    f.write(vt)
+                o3, d3 = await _run_proc([Z3BIN, f"-T:{int(timeout)}", path], timeout)
+                ob.seconds = round((ob.seconds or 0) + d3, 3)
+                if o3.split("\n", 1)[0].strip() == "unsat":
+                    ob.verdict, ob.solver, ob.detail = "discharged", f"z3-5.1[{label}]", ""
+                    break
+            try:
+                os.unlink(path)
+            except OSError:
+                pass
+    await asyncio.gather(*[one(n, ob, vs) for n, (ob, vs) in enumerate(pairs)])
+
+
 def solve_all(obligations, timeout=10, jobs=14):
     """print every query with the z3 API (single thread), then run one solver process per query, `jobs` at a time,
     from a single-threaded asyncio loop (threads contend on the GIL and made tiny queries 30x slower)."""
@@ -244,17 +269,21 @@ def solve_all(obligations, timeout=10, jobs=14):
         except Exception as e:
             texts.append(None)
             ob.verdict, ob.detail, ob.solver, ob.seconds = "undecided", f"smt2 print failed: {e}", "-", 0.0
-    variants = {}
-    for i, ob in enumerate(obligations):
-        if getattr(ob, "expect", None) == "sat" or texts[i] is None:
-            continue
-        try:
-            variants[i] = [(lab, smt2_of(h, ob.goal)) for lab, h in sliced_variants(ob)]
-        except Exception:
-            variants[i] = []
     tmpdir = tempfile.mkdtemp(prefix="pyvc_", dir=os.environ.get("VERIF_TMP"))
     try:
-        asyncio.run(_solve_async(list(zip(obligations, texts)), timeout, jobs, tmpdir, variants))
+        asyncio.run(_solve_async(list(zip(obligations, texts)), timeout, jobs, tmpdir, {}))
+        # second pass, only for what is still open: sound weakenings of the query (printing them is the expensive part)
+        open_idx = [i for i, ob in enumerate(obligations) if ob.verdict == "undecided" and getattr(ob, "expect", None) != "sat" and texts[i] is not None]
+        if open_idx:
+            pairs2 = []
+            for i in open_idx:
+                ob = obligations[i]
+                try:
+                    vs = [(lab, smt2_of(h, ob.goal)) for lab, h in sliced_variants(ob)]
+                except Exception:
+                    vs = []
+                pairs2.append((ob, vs))
+            asyncio.run(_solve_variants(pairs2, timeout, jobs, tmpdir))
     finally:
         shutil.rmtree(tmpdir, ignore_errors=True)
     for ob in obligations:
